@@ -1,6 +1,7 @@
 package main
 
 import (
+	"go/token"
 	"fmt"
 	"go/types"
 	"os"
@@ -65,6 +66,39 @@ func LoadProgram(repo string, tags string, specsDir string) (*Program, error) {
 	p.prog = prog
 	for fn := range ssautil.AllFunctions(prog) {
 		p.funcs[fn.String()] = fn
+	}
+	// AllFunctions leaves out the methods of unexported types that nothing calls or boxes: the module's own
+	// are all wanted (a contract may be written on any of them)
+	var addFn func(fn *ssa.Function)
+	addFn = func(fn *ssa.Function) {
+		if fn == nil || p.funcs[fn.String()] != nil {
+			return
+		}
+		p.funcs[fn.String()] = fn
+		for _, af := range fn.AnonFuncs {
+			addFn(af)
+		}
+	}
+	for _, sp := range prog.AllPackages() {
+		if sp.Pkg == nil || p.ModPath == "" || !strings.HasPrefix(sp.Pkg.Path(), p.ModPath) {
+			continue
+		}
+		for _, m := range sp.Members {
+			tm, ok := m.(*ssa.Type)
+			if !ok {
+				continue
+			}
+			n, ok := tm.Type().(*types.Named)
+			if !ok || n.TypeParams().Len() > 0 || types.IsInterface(n) {
+				continue
+			}
+			for _, t := range []types.Type{n, types.NewPointer(n)} {
+				ms := prog.MethodSets.MethodSet(t)
+				for i := 0; i < ms.Len(); i++ {
+					addFn(prog.MethodValue(ms.At(i)))
+				}
+			}
+		}
 	}
 	for _, sp := range prog.AllPackages() {
 		p.byPath[sp.Pkg.Path()] = sp.Pkg
@@ -422,6 +456,9 @@ func (p *Program) externalModSet(sig *types.Signature, args []*SVal, invoke bool
 	ms := newModSet()
 	add := func(t types.Type) {
 		switch kindOf(t) {
+		case KChan:
+			// it may take values from a channel it is handed
+			ms.names[recvHeap] = recvSort
 		case KSlice:
 			p.sliceElemNames(ms, t)
 		case KPtr:
@@ -475,6 +512,12 @@ func (p *Program) instrMods(ms *modSet, fn *ssa.Function, ins ssa.Instruction, d
 			return
 		}
 		p.addrNames(ms, x.Addr, x.Addr.Type().Underlying().(*types.Pointer).Elem())
+	case *ssa.Select:
+		ms.names[recvHeap] = recvSort
+	case *ssa.UnOp:
+		if x.Op == token.ARROW {
+			ms.names[recvHeap] = recvSort
+		}
 	case *ssa.MapUpdate:
 		p.mapNames(ms, x.Map.Type().Underlying().(*types.Map))
 	case *ssa.Alloc, *ssa.MakeSlice, *ssa.MakeMap, *ssa.MakeClosure, *ssa.MakeChan:
